@@ -18,12 +18,12 @@ import (
 func init() { drivers["c11"] = c11 }
 
 type c11op struct {
-	Op   string `json:"op"`
-	I    int    `json:"i"`
-	U    string `json:"u"`
-	St   string `json:"st"`
-	From string `json:"from"`
-	R    *bool  `json:"r"`
+	Op   string    `json:"op"`
+	I    int       `json:"i"`
+	U    string    `json:"u"`
+	St   string    `json:"st"`
+	From string    `json:"from"`
+	R    *bool     `json:"r"`
 	Tree []vh.Node `json:"tree"`
 }
 
